@@ -32,6 +32,14 @@ def wellformed(rnd, tier, structs=True, messages=True, streams=True, per_type=No
         _, sc, _ = suites.g1_cases(rnd, n, layout=L, forced=(tier != "quick"))
         for key, v, b in sc:
             cases.append(Case(key, None, False, b, "wf_struct", v))
+    if structs:
+        # every primitive type on its own: all boundaries of its valid items and all short-encoding values
+        G = gen.Gen(L, rnd)
+        for pname in sorted(L["prims"]):
+            if pname in L["types"]:
+                vals = G.sweep(pname)
+                for x in (vals if tier != "quick" or len(vals) <= 24 else rnd.sample(vals, 24)):
+                    cases.append(Case(pname, None, False, G.enc_int(pname, x), "wf_struct", ("I", pname, x)))
     M = msggen.MsgGen(L, rnd)
     if messages or streams:
         n = per_cc if per_cc is not None else (2 if tier == "quick" else 8)
